@@ -392,8 +392,35 @@ impl<'a> Checker<'a> {
                             None => self.exempt_leaves += 1,
                             Some(rhs) => {
                                 let mut fresh = 700_000;
+                                // names bound on the left side (images of the left pattern's binder slots) have no meaning across the two sides: a
+                                // rule such as (lam $x (app ?f (var $x))) => (u ?f) lets ?f carry the bound slot out of its binder, where it is a
+                                // free slot of the right side only and may be spelled differently
+                                let lhs_bound: BTreeSet<Name> = {
+                                    fn binders(p: &RP, out: &mut Vec<String>) {
+                                        if let RP::Node { kids, .. } = p {
+                                            for (bs, k) in kids {
+                                                out.extend(bs.iter().cloned());
+                                                binders(k, out);
+                                            }
+                                        }
+                                    }
+                                    let mut bs = vec![];
+                                    binders(&rule.lhs, &mut bs);
+                                    bs.iter().filter_map(|b| rho.get(b).copied()).collect()
+                                };
                                 let Some(want) = rp_inst(rhs, &mut rho, &sigma, &mut fresh) else { return Err(format!("rule {j}: right pattern uses an unbound variable")) };
-                                if want.canon() != rraw.canon() {
+                                let same = {
+                                    let mut ps = vec![];
+                                    let (wc, rc) = (want.canon(), rraw.canon());
+                                    if !pairs(&wc, &rc, &mut ps) {
+                                        false
+                                    } else {
+                                        let mut th = Theta::default();
+                                        let fixed: BTreeSet<Name> = wc.fv().into_iter().filter(|n| !lhs_bound.contains(n)).collect();
+                                        ps.iter().all(|(x, y)| if lhs_bound.contains(x) { th.bind(*x, *y) && !fixed.contains(y) } else { x == y }) && th.injective_on(&wc.fv())
+                                    }
+                                };
+                                if !same {
                                     return Err(format!("leaf justified by rule {j}: the right side is {} but the instantiated right pattern {} is {}", show(&r), rule.rhs_txt, show(&want.canon())));
                                 }
                             }
